@@ -6,5 +6,6 @@ int main(int argc, char **argv) {
     vf::install_crash_handler();
     RUN("signal_history", 1, true, scn::signal_history(o, R, o.cases));
     RUN("signal_mt", o.threads, true, scn::signal_mt(o, R, T, o.cases));
+    RUN("signal_string_values", 1, true, scn::signal_string_values(o, R, o.cases));
     return 0;
 }
